@@ -466,18 +466,14 @@ Section Main.
   Notation dm := (msg_decode_msg slow S).
   Notation eb := (msg_enc_body S).
 
-  Definition msg_no_unknown (v : value) : Prop :=
-    match v with VMsg _ (_ :: _) => False | _ => True end.
-
-  (* what follows the body: nothing (top level, length-delimited), or the end-group tag; in the
-     second case the value must not carry unknown bytes (restriction [grp_unknown]) *)
-  Definition msg_term_ok (v : value) (grp : N) (term rest : list byte) : Prop :=
+  (* what follows the body: nothing (top level, length-delimited), or the end-group tag *)
+  Definition msg_term_ok (grp : N) (term rest : list byte) : Prop :=
     (grp = 0 /\ term = [] /\ rest = []) \/
-    (1 <= grp /\ grp <= msg_max_num /\ term = enc_tag grp 4 ++ rest /\ msg_no_unknown v).
+    (1 <= grp /\ grp <= msg_max_num /\ term = enc_tag grp 4 ++ rest).
 
   Definition msg_dec_stmt (v : value) : Prop :=
     forall dep tid, msg_typed slow S dep tid v = true -> msg_sizes_ok S tid v = true ->
-    forall grp term rest g, msg_term_ok v grp term rest ->
+    forall grp term rest g, msg_term_ok grp term rest ->
       (length (eb tid v ++ term) < length g)%nat ->
       dm dep tid grp g (eb tid v ++ term) ([], []) = DOk (msg_macc_of v, rest).
 
@@ -539,7 +535,6 @@ Section Main.
           pose proof (Hstmt d t Hty Hsok 0 [] [] (x00 :: eb t (VMsg fs' u'))) as H.
           rewrite app_nil_r in H. rewrite H; [reflexivity|left; auto|cbn [length]; lia].
       - (* group *)
-        apply andb_true_iff in Hty. destruct Hty as [Hty Hunk].
         apply andb_true_iff in Hty. destruct Hty as [Hslow Hty].
         apply negb_true_iff in Hslow.
         replace ((enc_tag (f_num fd) 3 ++ eb t (VMsg fs' u') ++ enc_tag (f_num fd) 4) ++ tail)
@@ -553,7 +548,7 @@ Section Main.
         cbn [fst]. rewrite (msg_old_sub_fresh fd accf Hold).
         rewrite <- !app_assoc.
         apply (Hstmt d t Hty Hsz (f_num fd) (enc_tag (f_num fd) 4 ++ tail) tail).
-        + right. repeat split; try assumption. cbn [msg_no_unknown]. destruct u'; [exact I|discriminate].
+        + right. auto.
         + cbn [length]. lia.
     Qed.
   
@@ -913,34 +908,50 @@ Section Main.
         destruct d; [discriminate|]. cbn [msg_dsub2]. rewrite H2. reflexivity.
     Qed.
 
-    Lemma msg_unknown_loop : forall gf u g accf pre,
-      msg_unknown_ok slow md has2 gf u = true -> (length u < length g)%nat ->
-      dm (Datatypes.S d) tid 0 g u (accf, pre) = DOk ((accf, pre ++ u), []).
+    Lemma msg_firstn_app_le (n : nat) (a b : list byte) : (n <= length a)%nat -> firstn n (a ++ b) = firstn n a.
+    Proof. intros H. rewrite firstn_app. replace (n - length a)%nat with 0%nat by lia. cbn [firstn]. apply app_nil_r. Qed.
+
+    Lemma msg_unknown_loop : forall gf u g accf pre tail,
+      msg_unknown_ok slow md has2 gf u = true -> (length (u ++ tail) < length g)%nat ->
+      exists g2, (length tail < length g2)%nat /\
+        dm (Datatypes.S d) tid grp g (u ++ tail) (accf, pre) = dm (Datatypes.S d) tid grp g2 tail (accf, pre ++ u).
     Proof.
-      induction gf as [|x0 gf IH]; intros u g accf pre Hok Hg; [discriminate|].
-      destruct g as [|x g]; [cbn in Hg; lia|].
+      induction gf as [|x0 gf IH]; intros u g accf pre tail Hok Hg; [discriminate|].
       destruct u as [|b0 u0].
-      - rewrite (msg_dm_unfold slow S d tid 0 md x g [] (accf, pre) Hmd). rewrite app_nil_r. reflexivity.
-      - cbn [msg_unknown_ok] in Hok.
+      - exists g. cbn [app] in *. rewrite app_nil_r. split; [exact Hg|reflexivity].
+      - destruct g as [|x g]; [cbn in Hg; lia|].
+        cbn [msg_unknown_ok] in Hok.
         destruct (dec_tag (b0 :: u0)) as [[[num typ] r]|e] eqn:Hdt; [|discriminate].
         destruct (parse_val default_dep num typ r) as [[w r']|e] eqn:Hpv; [|discriminate].
         repeat (apply andb_true_iff in Hok; destruct Hok as [Hok ?]).
         rename H into Hrec. rename H0 into Hlt. rename H1 into Heq2. rename H2 into Heq1. rename H3 into Hrej.
         rename H4 into Ht4.
         apply msg_bytes_eqb_eq in Heq2.
-        rewrite (msg_dm_unfold slow S d tid 0 md x g (b0 :: u0) (accf, pre) Hmd).
-        rewrite Hdt.
+        destruct (msgw_dec_tag_ext _ tail _ _ _ Hdt) as [Hdt' Hlr].
+        destruct (msgw_parse_val_ext _ _ _ _ tail _ _ Hpv) as [Hpv' Hlr'].
+        rewrite (msg_dm_unfold slow S d tid grp md x g ((b0 :: u0) ++ tail) (accf, pre) Hmd).
+        cbn [app]. change (b0 :: u0 ++ tail) with ((b0 :: u0) ++ tail).
+        rewrite Hdt'.
         replace (msg_max_num <? num) with false by lia.
         apply negb_true_iff in Ht4. rewrite Ht4. cbv zeta.
-        rewrite (msg_rejects_step _ num typ r (accf, pre) Hrej).
-        unfold msg_unknown. rewrite Hpv. cbn [fst snd].
-        assert (Hlen : (length r' <= length r)%nat).
-        { pose proof (f_equal (@length byte) Heq2) as Hl. rewrite app_length in Hl. lia. }
-        rewrite IH; [|exact Hrec|cbn [length] in *; lia].
-        f_equal. f_equal. f_equal. rewrite <- !app_assoc. f_equal.
-        destruct slow.
-        + apply msg_bytes_eqb_eq in Heq1. rewrite <- Heq1 at 3. f_equal. exact Heq2.
-        + apply msg_bytes_eqb_eq in Heq1. rewrite <- Heq1. f_equal. exact Heq2.
+        rewrite (msg_rejects_step _ num typ (r ++ tail) (accf, pre) Hrej).
+        unfold msg_unknown. rewrite Hpv'. cbn [fst snd].
+        destruct (IH r' g accf (pre ++ (if slow then firstn (length ((b0 :: u0) ++ tail) - length (r ++ tail)) ((b0 :: u0) ++ tail)
+                                        else enc_tag num typ)
+                                 ++ firstn (length (r ++ tail) - length (r' ++ tail)) (r ++ tail)) tail Hrec)
+          as (g2 & Hg2 & E).
+        + rewrite app_length in *. cbn [length] in *. lia.
+        + exists g2. split; [exact Hg2|]. rewrite E. f_equal. f_equal.
+          rewrite <- !app_assoc. f_equal.
+          rewrite !app_length.
+          replace (length r + length tail - (length r' + length tail))%nat with (length r - length r')%nat by lia.
+          rewrite (msg_firstn_app_le (length r - length r') r tail) by lia.
+          destruct slow.
+          * replace (length (b0 :: u0) + length tail - (length r + length tail))%nat
+              with (length (b0 :: u0) - length r)%nat by lia.
+            rewrite (msg_firstn_app_le (length (b0 :: u0) - length r) (b0 :: u0) tail) by lia.
+            apply msg_bytes_eqb_eq in Heq1. rewrite Heq2. exact Heq1.
+          * apply msg_bytes_eqb_eq in Heq1. rewrite Heq2. exact Heq1.
     Qed.
   End InMessage.
 
@@ -977,11 +988,11 @@ Section Main.
         - rewrite app_nil_r in Hp.
           eapply msg_sorted_perm_eq; [exact Hs|exact Hsorted|]. rewrite Hp. exact Hperm. }
       rewrite Hins. cbn [msg_macc_of].
-      destruct Hterm as [(-> & -> & ->)|(Hlo & Hhi & -> & Hnu)].
-      + rewrite app_nil_r in *.
-        rewrite (msg_unknown_loop d tid md Hmd (x00 :: unk) unk g2 fs [] Hunk Hg2). reflexivity.
-      + cbn [msg_no_unknown] in Hnu. destruct unk; [|contradiction]. cbn [app] in *.
-        apply (msg_dm_end_grp slow S d tid md grp g2 rest (fs, []) Hmd Hlo Hhi). lia.
+      destruct (msg_unknown_loop d tid md grp Hmd (x00 :: unk) unk g2 fs [] term Hunk Hg2) as (g3 & Hg3 & E3).
+      etransitivity; [exact E3|]. clear E3. cbn [app].
+      destruct Hterm as [(-> & -> & ->)|(Hlo & Hhi & ->)].
+      + apply (msg_dm_end0 slow S d tid md g3 (fs, unk) Hmd). lia.
+      + apply (msg_dm_end_grp slow S d tid md grp g3 rest (fs, unk) Hmd Hlo Hhi). lia.
     - split; [intros dep tid Hty; discriminate|]. exact (proj1 IH).
   Qed.
 End Main.
